@@ -23,9 +23,9 @@ MANIFEST = dict(
          "signature against the named input.  The same requests are also sent as protocol messages (SignDelayedPaymentToUs, "
          "SignRemoteHtlcToUs, SignPenaltyToUs, their SignAny* variants, SignLocalHtlcTx, SignAnyLocalHtlcTx, SignRemoteHtlcTx) "
          "through the Root/ChannelHandler with the handler's glue modelled (input index, PSBT amount, wallet path from the "
-         "PSBT output's key origin, channel look-up) and the property evaluated on what was signed.  C09_feerate_estimate_is_source: the feerate estimate of the model IS the source's (estimate_feerate_per_kw translated on every run by tools/gen_rustfn.py into Gen/TxUtilGen.v and proved equal to the model's definition for every u64 fee and non-zero weight, both build profiles).",
+         "PSBT output's key origin, channel look-up) and the property evaluated on what was signed.  C09_feerate_estimate_is_source: the feerate estimate of the model IS the source's (estimate_feerate_per_kw translated on every run by tools/gen_rustfn.py into Gen/TxUtilGen.v and proved equal to the model's definition for every u64 fee and non-zero weight, both build profiles).  C09_sweep_rules_are_source / C09_delayed_sweep_rules_are_source / C09_justice_sweep_rules_are_source: the sweep validators ARE the source's - SimpleValidator::validate_sweep, ::validate_delayed_sweep, ::validate_justice_sweep are translated statement by statement on every run (Gen/SweepGen.v; MAX_CHAIN_LAG and the sequence sets read from the file; the wallet's answers and rust-bitcoin's Version::TWO / Time::MIN / Height::from_consensus / LockTime::is_satisfied_by are parameters, instantiated with the model's reading) and proved equal to the model's validators for every transaction, wallet, policy filter and both build profiles, panics included (the four transaction-format classes are one tag in the source; validate_counterparty_htlc_sweep is not translated).",
     design="§4 C09",
-    note=lib.TB + "Premises visible in the theorems: sighash injective on the covered fields and hash equality decidable "
+    note=lib.TB + "Additionally trusted: tools/gen_rustfn.py and the meaning Base/Rust.v gives to the Rust constructs it reads (rust-bitcoin's Transaction / TxIn / TxOut are declared to it by hand and compared with the crate source when that is in the cargo registry).  Premises visible in the theorems: sighash injective on the covered fields and hash equality decidable "
          "(instantiated by the identity in the executable comparison, C09_htlc_premises_satisfiable); commitment type other "
          "than the non-zero-fee Anchors one (unsafe type, refused at setup; C09_htlc_anchors_nonzero_fee_deviates); release "
          "builds: htlc_amount_sat*1000 fits u64 (C09_htlc_release_amount_wrap).  Modelled, not verified: the script "
@@ -73,6 +73,10 @@ def _first_input_class(cases):
     bad = lib.coq_failures(IMPORTS, "sweep_case", "check_sweep_old", [c["coq"] for c in cand], "c09_sweep_cls")
     return [c for i, c in enumerate(cand) if i not in set(bad)]
 
+# the tie to the source: Gen/TxUtilGen.v, Gen/CommitmentPolicyGen.v and Gen/SweepGen.v are regenerated right before the build
+SOURCE_PINNED = ["C09_feerate_estimate_is_source", "C09_sweep_rules_are_source", "C09_delayed_sweep_rules_are_source",
+                 "C09_justice_sweep_rules_are_source"]
+
 
 def run(res):
     quick = res.tier == "quick"
@@ -82,12 +86,26 @@ def run(res):
 
     def regen():
         tx_report.update(gen_rustfn.generate_txutil(lib.REPO))
+        stage["at"] = "sweep"
+        # Gen/SweepGen.v (validate_sweep, validate_delayed_sweep, validate_justice_sweep) over the records of
+        # Gen/CommitmentPolicyGen.v
+        tx_report["commitment_policy"] = gen_rustfn.generate_commitment_policy(lib.REPO)["translated"]
+        tx_report["sweep"] = gen_rustfn.generate_sweep(lib.REPO)
+    stage = {"at": "txutil"}
     try:
-        lib.proof_stage(res, "C09.v", "Props.C09", PINNED + ["C09_feerate_estimate_is_source"], pre=regen)
+        lib.proof_stage(res, "C09.v", "Props.C09", PINNED + SOURCE_PINNED, pre=regen)
     except gen_rustfn.GenError as e:
-        res.violation("the translator cannot read estimate_feerate_per_kw (a construct outside its fragment): %s" % e,
-                      {"translator": "tools/gen_rustfn.py", "source": "vls-core/src/util/transaction_utils.rs",
-                       "error": str(e), "theorem": "C09_feerate_estimate_is_source"}, has_input=False)
+        if stage["at"] == "txutil":
+            res.violation("the translator cannot read estimate_feerate_per_kw (a construct outside its fragment): %s" % e,
+                          {"translator": "tools/gen_rustfn.py", "source": "vls-core/src/util/transaction_utils.rs",
+                           "error": str(e), "theorem": "C09_feerate_estimate_is_source"}, has_input=False)
+        else:
+            res.violation("the translator cannot read validate_sweep / validate_delayed_sweep / validate_justice_sweep or a "
+                          "declaration, constant or helper they use (a construct outside its fragment): %s" % e,
+                          {"translator": "tools/gen_rustfn.py",
+                           "source": "vls-core/src/policy/simple_validator.rs (+ policy/error.rs, wallet.rs, channel.rs, "
+                                     "policy/validator.rs)",
+                           "error": str(e), "theorem": "C09_sweep_rules_are_source"}, has_input=False)
     res.coverage["translated_from_source"] = tx_report
     cov = res.coverage
     profiles = ["debug"] if quick else ["debug", "release"]
